@@ -99,8 +99,6 @@ def _fixed(tier):
         {'l': [{'$match': {'n': 1, '$invert': True}, 'w': 2}]}, {'m': {'y': [3]}}, {'m': {'y': [{'$delete': 1}]}}, {'z': 4}, {'z': {'k': 1}},
         {'new': {'$replace': True, 'k': 1}}, {'new': [{'$delete': 1}]}, {'m': {'$match': {}}}, {'l': [{'$match': {'v': 1}, 'v': 1}]},
         {'l': [{'$match': 3, '$value': 4}]}, {'l': [{'$match': 3, '$value': 3}]},
-        # a child list that appends an entry and later in the same list targets it (entries apply in order)
-        {'l': [{'n': 7, 'v': 2}, {'$delete': {'n': 7}}]}, {'l': [{'n': 7, 'v': 2}, {'$match': {'n': 7}, 'w': 1}]}, {'l': [{'n': 1, 'y': 9}, {'$delete': {'n': 1}}]}, {'l': [8, {'$match': 8, '$value': 9}]},
     ]
     out = [{'layers': [clone(P), k], 'labels': ['fixed'], 'cli': True} for k in kids]
     out.append({'layers': [{'r': ['$required'], 's': '$required'}, {'r': [1], 's': 2}], 'labels': ['fixed'], 'cli': True})
